@@ -6,7 +6,7 @@ every second-round function is run in Python on random / edge inputs and the gen
 
 Run after changing the translator; lean/RigModel/Gen/PyFun.lean must be built (`lake build RigModel.Gen.PyFun`).
 """
-import sys, random, subprocess, os, itertools
+import sys, random, subprocess, os, itertools, re
 sys.path.insert(0, os.environ.get("RIG_REPO", "/repo"))
 rng = random.Random(int(os.environ.get("SEED", "1")))
 cases = []   # (lean expr, expected string)
@@ -249,6 +249,70 @@ for _ in range(30):
     def hfill():
         m.fill(addr, dat, size, x, y, pp); return EV(m.ev)
     add("MachineController_fill %s %s %s %s %s %s" % (L(addr), L(dat), L(size), L(x), L(y), L(pp)), exc_(hfill))
+# ---- fourth round -------------------------------------------------------------------------------------
+from rig.place_and_route.place import utils as _pu
+from rig.place_and_route.constraints import ReserveResourceConstraint as _RRC
+def D(d): return L(list(d.items()))
+for _ in range(40):
+    ks = rng.sample(range(10), rng.randint(0, 5))
+    da = dict((k, rng.randint(-5, 20)) for k in ks)
+    db = dict((k, rng.randint(-5, 20)) for k in rng.sample(range(10), rng.randint(0, 5)))
+    add("add_resources %s %s" % (D(da), D(db)), show(list(_pu.add_resources(da, db).items())))
+    add("subtract_resources %s %s" % (D(da), D(db)), show(list(_pu.subtract_resources(da, db).items())))
+    add("overallocated %s" % D(da), show(bool(_pu.overallocated(da))))
+    k, a, b = rng.randint(0, 9), rng.randint(0, 5), rng.randint(0, 9)
+    add("resources_after_reservation %s %s" % (D(da), L((k, a, b))),
+        exc_(lambda: show(list(_pu.resources_after_reservation(da, _RRC(k, slice(a, b))).items()))))
+import math as _math
+from fractions import Fraction as _Fr
+from rig import type_casts as _tc
+from rig.place_and_route import Machine as _Machine
+from rig.links import Links as _Links
+for _ in range(60):
+    w, h = rng.randint(0, 4), rng.randint(0, 4)
+    dc = set((rng.randint(0, 4), rng.randint(0, 4)) for _ in range(rng.randint(0, 3)))
+    dl = set((rng.randint(0, 4), rng.randint(0, 4), _Links(rng.randint(0, 5))) for _ in range(rng.randint(0, 4)))
+    mach = _Machine(w, h, dead_chips=dc, dead_links=dl)
+    margs = "%s %s %s %s" % (L(w), L(h), L(sorted(dc)), L(sorted((a, b, int(c)) for a, b, c in dl)))
+    x, y, l = rng.randint(-1, 5), rng.randint(-1, 5), rng.randint(0, 5)
+    add("(Machine_contains_chip %s %s).1" % (margs, L((x, y))), show((x, y) in mach))
+    add("(Machine_contains_link %s %s).1" % (margs, L((x, y, l))), show((x, y, _Links(l)) in mach))
+from rig.bitfield import BitField as _BF
+for _ in range(60):
+    Lb = rng.choice([4, 8, 16, 32])
+    flen, fstart = rng.choice([None, None, 1, 3, 8, 0]), rng.choice([None, None, 0, 2, 5, 30])
+    mv = rng.choice([1, 2, 3, 7, 8, 255, 256, 2 ** 20 + 5])
+    assigned = rng.getrandbits(Lb) & rng.getrandbits(Lb)
+    bf = _BF(Lb)
+    bf.add_field("f")
+    fld = bf.fields.get_field("f", {})
+    fld.length, fld.start_at, fld.max_value = flen, fstart, mv
+    def haf():
+        r = bf._assign_field(assigned, "f", {})
+        return show((r,)).rstrip(")").rstrip(",") + "," + SO(fld.length) + "," + SO(fld.start_at) + "," + show(fld.max_value) + ")"
+    add("BitField_assign_field (Rig.C08.logOps false) %s %s %s %s %s" % (OI(flen), OI(fstart), L(mv), L(Lb), L(assigned)), exc_(haf))
+for signed in (False, True):
+    for bits in (0, 7, 8, 16, 32, 64, 65):
+        frac = rng.randint(-3, 40)
+        def hnp():
+            c = _tc.NumpyFloatToFixConverter(signed, bits, frac)
+            return show((int(c.max_value), int(c.min_value), int(c.n_frac)))
+        add("NumpyFloatToFixConverter_init 1 2 3 %s %s %s" % (B(signed), L(bits), L(frac)), exc_(hnp))
+FRAC = "(fun (r : Rig.C16.FV) => match r with | Rig.C16.FV.val (Rig.C16.FloatR.fin d) => (let n : Int := if 0 ≤ d.e then d.m * 2 ^ d.e.toNat else d.m; let q : Int := if 0 ≤ d.e then 1 else 2 ^ (-d.e).toNat; let g : Int := ((Int.gcd n q : Nat) : Int); (n / g, q / g)) | _ => ((0 : Int), (0 : Int)))"
+for _ in range(60):
+    signed, bits, frac = rng.random() < 0.5, rng.choice([1, 8, 16, 32, 64]), rng.choice([-3, 0, 4, 15, 16, 31, 100, 1030])
+    m, e = rng.choice([0, 1, -1, 3, -5, rng.getrandbits(53), -rng.getrandbits(53), rng.getrandbits(20)]), rng.choice([-60, -20, -4, 0, 3, 40, 900])
+    x = _math.ldexp(float(m), e)
+    if _math.isinf(x):
+        continue
+    add("float_to_fp Rig.C16.dyOps %s %s %s (Rig.C16.FV.val (Rig.C16.FloatR.fin ⟨%d, %d⟩))" % (B(signed), L(bits), L(frac), m, e),
+        exc_(lambda: show(_tc.float_to_fp(signed, bits, frac)(x))))
+    k = rng.choice([0, 1, -7, rng.getrandbits(30), -rng.getrandbits(60), rng.getrandbits(70), 10 ** 320])
+    def hk():
+        r = _tc.fp_to_float(frac)(k)
+        fr = _Fr(r)
+        return show((fr.numerator, fr.denominator))
+    add("(PyFun.fp_to_float Rig.C16.dyOps %s %s).map %s" % (L(frac), L(k), FRAC), exc_(hk))
 from rig.place_and_route.utils import _get_minimal_core_reservations
 for _ in range(40):
     cs = sorted(rng.sample(range(20), rng.randint(0, 8))) if rng.random() < 0.8 else [rng.randint(0, 6) for _ in range(rng.randint(0, 6))]
@@ -304,7 +368,7 @@ for _ in range(60):
         add("SlicedMemoryIO_write %s %s" % (args, L(d)), "(" + ",".join([show(r)] + [show(x) for x in st(v)] + [EV(evs)]) + ")")
 
 cases = [c for c in cases if c[1] != ""]
-src = "import RigModel.Gen.PyFun\nopen Rig.Gen.PyFun\n" + "".join("#eval %s\n" % c[0] for c in cases)
+src = "import RigModel.Gen.PyFun\nimport RigModel.Props.C16Gen\nimport RigModel.Props.C08Gen\nopen Rig.Gen Rig.Gen.PyFun\n" + "".join("#eval %s\n" % c[0] for c in cases)
 HERE = os.path.dirname(os.path.dirname(os.path.abspath(__file__)))
 TMP = os.path.join(HERE, "lean", ".lake", "DiffTest.lean")
 open(TMP, "w").write(src)
@@ -322,6 +386,7 @@ if len(got) != len(cases):
     print("count mismatch", len(got), len(cases)); print(out[:3000])
 for (ex, want), g in zip(cases, got):
     g = g.replace("some ", "some")
+    g = re.sub(r"Except\.ok \((-\d+)\)$", r"Except.ok \1", g)
     g2 = g.replace(" ", "").replace("Except.ok", "Except.ok ").replace("Except.error", "Except.error ")
     w2 = want.replace(" ", "").replace("Except.ok", "Except.ok ").replace("Except.error", "Except.error ")
     if g2 != w2:
